@@ -1,21 +1,21 @@
 #!/bin/bash
 # import_seeded.sh <property> <n> "<what it needs to manifest>"  : verify and keep a sub-agent change
-p=$1; n=$2; needs="$3"
+p=$1; n=$2; needs="$3"; r="${ROUND:-}"; sid="$p-$n"; [ -n "$r" ] && sid="$p-r$r-$n"
 line=$(/verif/verify_seeded.sh $p $n 2>&1 | sed 's/; 0 ignored; 0 measured; 0 filtered out//g; s/finished in [0-9.]*s//g')
 echo "$line"
 case "$line" in
   *"unmodified demo: test result: ok"*"patched unit: test result: ok. 44 passed"*"patched demo: test result: FAILED"*) ;;
   *) echo "NOT KEPT: verification failed"; exit 1;;
 esac
-d=/verif/seeded/$p-$n; mkdir -p $d
-cp /tmp/mut-$p/$n/patch.diff /tmp/mut-$p/$n/demo.rs $d/
-cp /tmp/mut-$p/$n/README.md $d/README.md 2>/dev/null
-python3 - "$p" "$n" "$needs" "$line" <<'PY'
+d=/verif/seeded/$sid; mkdir -p $d
+cp /tmp/mut$r-$p/$n/patch.diff /tmp/mut$r-$p/$n/demo.rs $d/
+cp /tmp/mut$r-$p/$n/README.md $d/README.md 2>/dev/null
+python3 - "$p" "$sid" "$needs" "$line" "$r" <<'PY'
 import json,sys
-p,n,needs,line=sys.argv[1:5]
+p,sid,needs,line,r=sys.argv[1:6]
 meta={"breaks_property":p,"origin":"written by a fresh sub-agent that was given only the text of the property and a scratch worktree of /repo (nothing from /verif)",
  "needs_to_manifest":needs,
- "verification":{"how":"verify_seeded.sh in the scratch worktree /tmp/wt-%s: unmodified tree: cargo test --offline --test demo; with patch.diff applied: cargo test --offline --lib and cargo test --offline --test demo"%p,"result":line},
+ "verification":{"how":"verify_seeded.sh in the scratch worktree /tmp/wt%s-%s: unmodified tree: cargo test --offline --test demo; with patch.diff applied: cargo test --offline --lib and cargo test --offline --test demo"%(r,p),"result":line},
  "detected_by":"see DESIGN.md sensitivity table (filled by ./sensitivity.sh seeded)"}
-json.dump(meta,open(f"/verif/seeded/{p}-{n}/meta.json","w"),indent=1)
+json.dump(meta,open(f"/verif/seeded/{sid}/meta.json","w"),indent=1)
 PY
